@@ -30,22 +30,22 @@ UNIT = {
             ],
             'requires': ['old(env).jobs.jobs@.contains_key(index)'],
             'ensures': [
-                # what happened before is untouched; the terminal is looked up first
-                L1 + '.len() > ' + L0 + '.len() && (forall|k: int| 0 <= k < ' + L0 + '.len() ==> #[trigger] ' + L1 + '[k] == ' + L0 + '[k]) && ' + L1 + '[' + L0 + '.len() as int] is GotTty',
+                # what happened before is untouched
+                L1 + '.len() >= ' + L0 + '.len() && (forall|k: int| 0 <= k < ' + L0 + '.len() ==> #[trigger] ' + L1 + '[k] == ' + L0 + '[k])',
                 # not a job of this shell, or not under job control: refused; nothing is written, signalled, awaited or removed
-                '!' + J + '.is_owned ==> r == Err::<ProcessResult, ResumeError>(ResumeError::Unowned) && ' + L1 + '.len() == ' + L0 + '.len() + 1 && final(env).jobs == old(env).jobs',
-                J + '.is_owned && !' + J + '.job_controlled ==> r == Err::<ProcessResult, ResumeError>(ResumeError::Unmonitored) && ' + L1 + '.len() == ' + L0 + '.len() + 1 && final(env).jobs == old(env).jobs',
+                '(!' + J + '.is_owned || !' + J + '.job_controlled) ==> r is Err && ' + L1 + ' == ' + L0 + ' && final(env).jobs == old(env).jobs',
+                'r is Ok ==> ' + J + '.is_owned && ' + J + '.job_controlled',
                 # never a signal to anything but the job's process group, and only SIGCONT; never a wait for anything but the job
                 'forall|k: int| ' + L0 + '.len() <= k < ' + L1 + '.len() ==> (#[trigger] ' + L1 + '[k] matches Ev::Kill { target, cont, ok } ==> cont && target == neg_pid(' + J + '.pid))',
                 'forall|k: int| ' + L0 + '.len() <= k < ' + L1 + '.len() ==> (#[trigger] ' + L1 + '[k] matches Ev::Waited { pid, result } ==> pid == ' + J + '.pid)',
                 # a job that has already finished: its result, no signal, no wait; it is removed
-                '(r is Ok && (' + J + '.state matches ProcessState::Halted(res) && !(res is Stopped))) ==> r == Ok::<ProcessResult, ResumeError>(' + J + '.state->Halted_0) && ' + L1 + '.len() == ' + L0 + '.len() + 3 && ' + L1 + '[' + L0 + '.len() as int + 1] is Wrote && ' + L1 + '.last() == (Ev::Removed { index })',
+                '(r is Ok && (' + J + '.state matches ProcessState::Halted(res) && !(res is Stopped))) ==> r == Ok::<ProcessResult, ResumeError>(' + J + '.state->Halted_0) && ' + L1 + '.len() == ' + L0 + '.len() + 2 && ' + L1 + '[' + L0 + '.len() as int] is Wrote && ' + L1 + '.last() == (Ev::Removed { index })',
                 # a live job: (the terminal first, if there is one,) then SIGCONT, then ONE wait whose answer is the answer, (then the
                 # terminal back,) and the job leaves the table exactly when it has finished
-                '(r is Ok && !(' + J + '.state matches ProcessState::Halted(h) && !(h is Stopped))) ==> resumed(' + L1 + ', ' + L0 + '.len() as int, ' + J + '.pid, old(env).main_pgid, index, r->Ok_0)',
+                '(r is Ok && !(' + J + '.state matches ProcessState::Halted(h) && !(h is Stopped))) ==> resumed(' + L1 + ', ' + L0 + '.len() as int, old(env).verif_tty is Some, ' + J + '.pid, old(env).main_pgid, index, r->Ok_0)',
                 # the table: the job is gone iff a removal is recorded; nothing else changes
-                '(' + L1 + '.last() is Removed) ==> final(env).jobs.jobs@.dom() == old(env).jobs.jobs@.dom().remove(index)',
-                '!(' + L1 + '.last() is Removed) ==> final(env).jobs.jobs@.dom() == old(env).jobs.jobs@.dom()',
+                '(' + L1 + '.len() > ' + L0 + '.len() && ' + L1 + '.last() is Removed) ==> final(env).jobs.jobs@.dom() == old(env).jobs.jobs@.dom().remove(index)',
+                '!(' + L1 + '.len() > ' + L0 + '.len() && ' + L1 + '.last() is Removed) ==> final(env).jobs.jobs@.dom() == old(env).jobs.jobs@.dom()',
                 'r matches Ok(res) ==> (' + L1 + '.last() is Removed <==> !(res is Stopped))',
             ]}),
         (FG, ['fn should_interrupt'], {'ret': 'r', 'rewrites': ['let-chain-nest'],
